@@ -111,11 +111,18 @@ func (h TXN) Generate(seed uint64, tier string) *core.Scenario {
 		if h.Prop == "C22" && r.Chance(1, 4) {
 			// a second branch b2, written by its own autocommit session through the revision
 			// database name and read by the others inside their transactions
-			switch y := r.Intn(10); {
+			switch y := r.Intn(15); {
 			case y < 3:
 				b.Ops = append(b.Ops, TxnOp{Kind: "b2insert", PK: r.Intn(pkDom), A: r.Intn(aDom), B: r.Intn(3), C: r.Intn(3)})
 			case y < 4:
 				b.Ops = append(b.Ops, TxnOp{Kind: "b2delete", PK: r.Intn(pkDom)})
+			case y < 7:
+				// a dolt commit on main by a session of its own: HEAD moves under the open transactions
+				b.Ops = append(b.Ops, TxnOp{Kind: "dcommit"})
+			case y < 11:
+				// the table AS OF 'HEAD' / 'HEAD~1' / through `test/main` AS OF 'HEAD': names that mean
+				// another commit as soon as somebody commits - but not inside a transaction
+				b.Ops = append(b.Ops, TxnOp{S: r.Intn(b.NSess), Kind: "readhead", A: r.Intn(3)})
 			default:
 				b.Ops = append(b.Ops, TxnOp{S: r.Intn(b.NSess), Kind: "readb2"})
 			}
@@ -246,6 +253,9 @@ type msess struct {
 	start    mtab
 	view     mtab
 	view2    mtab // C22: branch b2 as of the transaction's start (never written by these sessions)
+	// C22: what HEAD and HEAD~1 of main held at the transaction's start
+	head, head1 mtab
+	head1Exists bool
 }
 
 func (h TXN) Execute(t *testing.T, sc *core.Scenario) *core.Result {
@@ -287,7 +297,9 @@ func (h TXN) Execute(t *testing.T, sc *core.Scenario) *core.Result {
 		}
 	}
 	branch := mtab{}
-	branch2 := mtab{} // C22: committed rows of kv on branch b2
+	branch2 := mtab{}                                   // C22: committed rows of kv on branch b2
+	headT, head1T, head1Exists := mtab{}, mtab{}, false // C22: kv at HEAD and HEAD~1 of main (HEAD~1 of the first commit has no kv)
+	var dc *Sess                                        // C22: the session that makes dolt commits on main
 	hasIA := true
 	hasX := true
 	newSessions := func() ([]*Sess, []*msess, bool) {
@@ -363,6 +375,7 @@ func (h TXN) Execute(t *testing.T, sc *core.Scenario) *core.Result {
 			ms[i].start = branch.clone()
 			ms[i].view = branch.clone()
 			ms[i].view2 = branch2.clone()
+			ms[i].head, ms[i].head1, ms[i].head1Exists = headT, head1T, head1Exists
 		}
 	}
 	// commitModel applies the outcome-driven commit. ok = what the engine reported.
@@ -489,7 +502,7 @@ func (h TXN) Execute(t *testing.T, sc *core.Scenario) *core.Result {
 				return res
 			}
 			ss, ms, ok = newSessions()
-			wb = nil
+			wb, dc = nil, nil
 			if !ok || !sideSessions() {
 				return res
 			}
@@ -554,6 +567,53 @@ func (h TXN) Execute(t *testing.T, sc *core.Scenario) *core.Result {
 				delete(branch2, op.PK)
 			}
 			continue
+		case "dcommit":
+			if h.Prop != "C22" {
+				continue
+			}
+			if dc == nil {
+				var err error
+				if dc, err = w.NewSession(ctx, true); err != nil {
+					res.Panic = err.Error()
+					return res
+				}
+			}
+			if _, err := dc.Exec(ctx, fmt.Sprintf("CALL dolt_commit('-Am', 'step %d')", step)); err == nil {
+				// an autocommit session commits the committed working set of main
+				head1T, head1Exists = headT, true
+				headT = branch.clone()
+				res.Fault("dolt-commit-under-open-transactions")
+			}
+			continue
+		case "readhead":
+			if h.Prop != "C22" {
+				continue
+			}
+			ensureTxn(i)
+			q, want, what := "SELECT pk, a, b, c FROM kv AS OF 'HEAD'", m.head, "HEAD"
+			switch op.A {
+			case 1:
+				if !m.head1Exists {
+					continue
+				}
+				q, want, what = "SELECT pk, a, b, c FROM kv AS OF 'HEAD~1'", m.head1, "HEAD~1"
+			case 2:
+				q, what = "SELECT pk, a, b, c FROM `test/main`.kv AS OF 'HEAD'", "`test/main` AS OF HEAD"
+			}
+			got, err := s.Exec(ctx, q)
+			if err != nil {
+				res.Probe("read_head_error:" + errStr(err)[:min(50, len(errStr(err)))])
+			} else {
+				var ws [][]string
+				for _, r := range want {
+					ws = append(ws, r[:])
+				}
+				res.Evaluations++
+				if rowsKey(got) != rowsKey(ws) {
+					res.Violate("read-differs-from-snapshot", "prop=C22;read=as of "+what, step, "session %d read kv AS OF %s and got\n%s\nbut at the start of its transaction that commit held\n%s", i, what, indent(rowsKey(got)), indent(rowsKey(ws)))
+				}
+				res.Probe("read_as_of_head")
+			}
 		case "readb2":
 			if h.Prop != "C22" {
 				continue
